@@ -264,12 +264,12 @@ PROPS["C01"] = dict(
                 "some pair i<j inside the cell overlaps or some copy i overlaps one of the images — within k shells, the untranslated one excluded — of some copy j whose centre is within 2R (ci.post, all copy counts, all shell counts); "
                 "(3) k = Cell2::periodic_shells(2R) satisfies k*a*sin t >= 2R and k*b*sin t >= 2R (this replaced an aspect-ratio heuristic: defect D1, fixed); periodic_images yields exactly the translates n*A+m*B, |n|,|m| <= k (sound + complete); "
                 "positions() yields wrap(g_k*T) inside [-1/2,1/2)^2; (4) z3: an image more than k cells away then has centre distance > 2R, and shapes within R of their centres cannot overlap at that distance; "
-                "(5) the shape-level and component-level pair predicates are the exact crossing / disc tests (C12).",
+                "(5) the shape-level and component-level pair predicates are the exact crossing / disc tests (C12); (6) COMPOSITION (c01.anywhere, a counted lemma obligation in unit state): from !overlapping() — no in-cell pair, no searched image within 2R overlapping — Verus derives that no copy overlaps any other copy in the cell, any image within the k searched shells, or ANY translate n*A+m*B beyond them, using the shell-count clause, Z:shell-x / Z:shell-y (imported as axioms), shell-wrap (proved in place) and the shape contract far_apart.",
     assumptions=_STATE_ASSUMPTIONS,
     undecided=["polygon-level geometry ('interiors intersect iff two non-parallel closed edges meet') and rounding at exactly aligned configurations (see C12)",
-               "'every component lies within enclosing_radius of the origin': per-component closure bodies are proved, the fold(MIN, max) over components is not",
-               "steps (1)-(5) are each machine-checked; their composition into 'no overlap anywhere in the tiling' is a paper argument (DESIGN I.5)",
-               "reachability along optimisation histories is C06/C20 (the optimiser only keeps scored states)"],
+                   "ShapeT::far_apart — 'copies whose centres are more than 2R apart do not overlap' — is a contract on the shape implementors: for the real shapes it rests on the enclosing-radius clauses of unit pairs and Z:disc-meaning; their combination per shape is not a machine-checked step",
+                   "the composition lemma c01.anywhere imports other units' clauses in restated form (wrapped = positions/periodic.range of unit geom, img_of = is_image of unit geom, cart_of = isometry.* of unit geom): that the restatements match is by inspection",
+                   "reachability along optimisation histories is C06/C20 (the optimiser only keeps scored states)"],
 )
 PROPS["C03"] = dict(
     level="other", units=["state", "pairs", "geom"], kani=[], lemmas=["lj-symmetric-like", "lj-symmetric", "lj-shells"],
